@@ -10,8 +10,8 @@
 \*                  3x2x2 fallback (414 980); generation also from 2x3x2 (3 attempts) and 3x2x1
 \*   uniq         : the IDManager's retry layer (GenerateUniqueXxxID + caller's check function).  Procs p1,p2  NCands 2  MaxAttempts 2
 \*                  MaxU 2  layouts distinct,same  every pattern of pre-existing markers x repository ids.  quick: MaxCalls 1
-\*                  (7 776 states); thorough: Faults Check (generation: 10 676), exhaustive 3 candidates / MaxU 3 / Faults Check (234 728).
-\*                  ExhaustionReturnsLast FALSE = the code; IdGen_show_exhaustion.cfg / IdGen_show_checkerr.cfg: the deviations
+\*                  Faults Check in both tiers (10 676 states); thorough: exhaustive 3 candidates / MaxU 3 / Faults Check (234 728).
+\*                  ExhaustionReturnsLast FALSE = the code; IdGen_show_exhaustion / checkerr / returnedreleased .cfg: the deviations
 \*   node untimed : Procs n1,n2,n3  NSlots 2  MaxTicks 0  Faults SetNX,Entropy  NCands 6  MaxCalls 2   (4 527 states)
 \*   node timed   : (thorough) Procs n1,n2 (exhaustive: n1,n2,n3, MaxTicks 5)  NSlots 2  TTLTicks 3  MaxTicks 4
 \*                  RenewTier/Wiring = claim/split (repaired code), local/same (redis mode), local/split (as it was)
@@ -53,6 +53,7 @@ CONSTANTS
   StopChan = "@@STOPCHAN@@"
   MaxU = @@MAXU@@
   ExhaustionReturnsLast = FALSE
+  ReturnedIdReleased = FALSE
   WithLapse = @@LAPSE@@
   Emit = @@EMIT@@
 INIT Init
